@@ -125,7 +125,7 @@ class C08(CleanBase):
                 if o["op"] == "match" and unhx(o["test"]) in skipped:
                     continue
                 if o["op"] == "endtest" and unhx(o["test"]) in skipped:
-                    run2.append({"op": "skip", "test": o["test"]})
+                    run2.append({"op": "skip", "test": o["test"], "form": r.choice(["", "f", "now"])})
                     continue
                 run2.append(o)
             ci, upd = r.choice(G.ENVS)
